@@ -82,7 +82,7 @@ Next ==
 Spec == Init /\ [][Next /\ UNCHANGED svars]_<<vars, svars>>
 
 \* ---------------------------------------------------------------- what is emitted
-Toks(d) == IF d = NoDef THEN <<>> ELSE Render(d, FALSE).t
+Toks(d) == IF d = NoDef THEN <<>> ELSE Render(d, 0).t
 Steps(b, o) == [i \in DOMAIN b |-> [uid |-> o + i, k |-> Pool[b[i]].k, d |-> Toks(Pool[b[i]].d), tx |-> Pool[b[i]].tx, tm |-> Pool[b[i]].tm]]
 Items(ord, c) ==
   LET an == Analysis(c) IN
